@@ -395,12 +395,12 @@ def runCase (c : Case) : String := Id.run do
           if jsum > 0 then
             match specFate st buildSp g0 at0 delay0 with
             | .delivered rx lo sender last =>
-              let want := s!"n=1 rx={mname rx} t={lo}..{lo + jsum} sender={mname sender} receiver={mname rx} last={gname last}"
+              let want := s!"n=1 rx={mname rx} t={lo}..<{lo + jsum} sender={mname sender} receiver={mname rx} last={gname last}"
               let it := words impl
               let okFields := it.head? == some "n=1" && kv it "rx" == some (mname rx) && kv it "sender" == some (mname sender)
                 && kv it "receiver" == some (mname rx) && kv it "last" == some (gname last) && it.length == 6
               let okTime := match kvNat it "t" with
-                | some t => lo ≤ t && t ≤ lo + jsum
+                | some t => lo ≤ t && t < lo + jsum
                 | none => false
               if !(okFields && okTime) then
                 return s!"fail {id} op={i} kind=reject line=[{lhs}] spec=[{want}] model=[not-compared-jitter] impl=[{impl}]"
